@@ -152,12 +152,30 @@ def havoc_value(E, name, v):
         cols = {c: E.new_arr(v.n, a.ty, kind='series', base='%s.%s@loop' % (name, c)) for c, a in v.cols.items()}
         f = Frame(v.ident, v.n, cols)
         return f
+    if isinstance(v, Arr) and v.ndim == 1 and getattr(v, 'lead', None) is None and v.stride == 1:
+        # a rebound 1-D array local: the same storage, an unknown window INSIDE the window it had at loop entry (every
+        # iteration must re-establish this: 'rebound-window' obligation after the body)
+        off2 = z3.Int(fresh_name(name + '.start@loop'))
+        n2 = z3.Int(fresh_name(name + '.len@loop'))
+        n0 = v.n if not isinstance(v.n, int) else z3.IntVal(v.n)
+        off0 = v.off if not isinstance(v.off, int) else z3.IntVal(v.off)
+        E.assume(z3.And(off2 >= off0, n2 >= 0, off2 + n2 <= off0 + n0))
+        return Arr(v.ident, (n2,), v.ty, v.kind, off2, 1, writeable=v.writeable)
     if isinstance(v, Arr):
-        # a rebound array local: same storage, unknown window
         raise Unsupported('array local %s rebound inside a symbolic loop' % name)
     if v is None:
         raise Unsupported('local %s is None before the loop and assigned inside it' % name)
     raise Unsupported('cannot havoc %s = %r' % (name, v))
+
+
+def _same_binding(a, b):
+    if a is b:
+        return True
+    if isinstance(a, Arr) and isinstance(b, Arr):
+        return a.ident == b.ident and str(a.off) == str(b.off) and a.stride == b.stride and str(a.n) == str(b.n)
+    if isinstance(a, Z) and isinstance(b, Z):
+        return a.t.eq(b.t)
+    return a == b if isinstance(a, (int, float, str, bool, type(None))) else False
 
 
 def exec_for(E, s):
@@ -210,10 +228,31 @@ def exec_for(E, s):
     roots = stored_roots(s.body) | set(spec.get('mutates') or [])
     target_names = {n.id for n in ast.walk(s.target) if isinstance(n, ast.Name)}
 
+    preserved = set(spec.get('preserved') or [])
+    entry_vals = {name: env[name] for name in names if name in env}
+
+    def check_rebinding():
+        # after a body path that continues with the next iteration
+        for name in sorted(preserved):
+            if name in entry_vals and not _same_binding(entry_vals[name], env.get(name)):
+                raise Unsupported('loop local %s is declared preserved but a continuing path rebinds it' % name)
+        for name in sorted(names - target_names - preserved):
+            v0, v1 = entry_vals.get(name), env.get(name)
+            if isinstance(v0, Arr) and name not in roots and v0.ndim == 1 and getattr(v0, 'lead', None) is None:
+                if not (isinstance(v1, Arr) and v1.ident == v0.ident and v1.stride == v0.stride == 1):
+                    raise Unsupported('array local %s rebound to different storage inside a symbolic loop' % name)
+                t = lambda x: x if not isinstance(x, int) else z3.IntVal(x)
+                E.oblige('rebound-window', z3.And(t(v1.off) >= t(v0.off), t(v1.n) >= 0,
+                                                  t(v1.off) + t(v1.n) <= t(v0.off) + t(v0.n)), s,
+                         name='%s/loop%d/rebound-window:%s' % (E.fn_short, ordinal, name))
+
     def havoc():
         for name in sorted(names - target_names):
+            if name in preserved:
+                continue          # assigned only on paths that leave the loop: checked after every body path
             if name in env and name not in roots:
                 env[name] = havoc_value(E, name, env[name])
+
         for name in sorted(roots):
             v = env.get(name)
             if isinstance(v, Arr) and getattr(v, 'lead', None) is not None:
@@ -260,6 +299,7 @@ def exec_for(E, s):
             pass
         except BreakSig:
             return
+        check_rebinding()
         for j, be in enumerate(spec.get('body_ensures') or []):
             # facts about the locals of an arbitrary iteration (per-iteration postcondition)
             E.oblige('body-ensures', E.spec_bool(be, inv_env(Z(k, INT))), s,
